@@ -729,7 +729,7 @@ class Executor:
     if isinstance(base, VOpaque):
       oa = getattr(self.lib, 'opaque_attr', {}).get((base.what.split(':')[0], attr))
       if oa is not None:
-        return [(p, oa())]
+        return [(p, oa(base))]
       return [(p, VBoundExt(base, attr))]
     if isinstance(base, VBoundExt) and isinstance(base.recv, VOpaque):
       return [(p, VOpaque(base.recv.what + '.' + base.name + '.' + attr))]
